@@ -86,4 +86,10 @@ theorem fp_time_expected :
      "0cb5c19ea2e95407", "ec965b209db92f85", "7ef8cab2c340a418", "3fb166a3538f3ed1",
      "996f2c318a4b475d", "3428407334e8defe", "1e37c062fd6a10e7", "e00c256c7e505a76"] := by rfl
 
+/-! lib/encoding/bool.go and the bit stream it writes through -/
+theorem fp_bool_expected :
+    [fp_boolEncoding, fp_boolDecoding, fp_bitWriteBit, fp_bitFlush, fp_bitReadBit] =
+    ["67fb75d8349766cb", "38fd660175a0b712", "3e09e7f17a6a0d93", "1f7afd0b1473ed8c",
+     "cecee633835296bb"] := by rfl
+
 end OG.C07.Facts
